@@ -10,7 +10,9 @@
      * the effective encoding of a preamble / metadata section comes from its POSITION: its own [encoding] option
        if given, else that of the nearest enclosing file / change / main section that declares one
        ([Encodings.spec_effective], the by-tree-position definition of C04; encodings.rst rule 3);
-       diff sections never inherit (rule 5);
+       diff sections never inherit (rule 5); a metadata section with NO effective encoding (nothing declared from
+       the main section down to the section itself) is the canonical JSON text as ASCII bytes — json_dump's
+       output is pure ASCII — terminated by the ASCII LF, under a header without [encoding];
      * the header is rendered by the SPEC-side renderer [HeaderFacts.render_header] (section-format.rst, "Section
        Headers") from the options that are present, sorted by key, and [length] is the byte count of the content
        that follows;
@@ -205,12 +207,17 @@ Definition spec_call (e0 : option bytes) (h : hist) (c : call) : option (bytes *
       (* ".meta", "..meta", "...meta": canonical JSON text, LF-terminated; no line_endings option *)
       olet own <- str_arg enc;
       olet f <- format_arg fmt;
-      olet eb <- effective e0 h own;
       if is_nil kv then None else
       match json_dump (JObj kv) with
       | Ok d0 =>
-          olet body <- text_body eb (B "unix") (map byte_n d0) None;
-          Some (content_section (S d) (B "meta") own None None (B "format", Some f) body, h)
+          match effective e0 h own with
+          | Some eb =>
+              olet body <- text_body eb (B "unix") (map byte_n d0) None;
+              Some (content_section (S d) (B "meta") own None None (B "format", Some f) body, h)
+          | None =>
+              (* no encoding in force: the (pure ASCII) canonical JSON as bytes, ASCII LF; no encoding option *)
+              Some (content_section (S d) (B "meta") own None None (B "format", Some f) (terminate LFb d0), h)
+          end
       | Err _ => None
       end
   | WriteMeta _ _ _ => None
